@@ -613,7 +613,11 @@ def run(out, tier):
         "cli_tie": cli,
         "cycle_theorem": "faithful: C11_find_cycle_iff / C11_cycle_iff are proved for the three-colour DFS itself, any graph size "
                          "(no bounded sweep, no fallback); C11_find_cycle_fuel: the fuel never runs out",
-        "refuted_witnesses_replayed_on_impl": "corpus/C11/graphs.jsonl lines 1-4 are the witnesses of C11_*_refuted; each must show up as its KNOWN-FINDING",
+        "refuted_witnesses_replayed_on_impl": "corpus/C11/graphs.jsonl lines 2-3 are the witnesses of C11_*_refuted (F2, F3); each must show up as its "
+                                              "KNOWN-FINDING. Lines 1 and 4 are the former witnesses of the repaired findings F1 (dir output outside the "
+                                              "workspace) and F4 (dir output that is the workspace root), now C11_dir_output_escape_rejected / "
+                                              "C11_root_dir_overlap_rejected: the implementation must reject them (an acceptance is a VIOLATION unless "
+                                              "known_findings.txt still lists the class)",
     })
     out.assumptions += [
         "graphs that load: syntactic rejections of the loader are C16's subject; output types are file/dir/docker",
